@@ -48,12 +48,16 @@ def fin(v):
         return False
 
 
+def same(a, b):
+    return a == b or (a != a and b != b)
+
+
 def check(tr, ref, tname, n_updates, where):
     def bad(key, what):
         raise Violation(f"{PID}/{key}", f"{where}: {what}", {})
     exact = tname == 'Fraction'
     eps = float(np.finfo(np.float32).eps) if tname == 'np.float32' else EPS
-    got = tr.get()
+    got = dict(tr.get())        # a snapshot: the tracker may hand out a dict it keeps
     want = ref.get()
     if set(got.keys()) != set(want.keys()):
         bad('keys', f"keys {list(got)} but keys seen so far are {list(want)} (keys are never dropped)")
@@ -65,12 +69,23 @@ def check(tr, ref, tname, n_updates, where):
         if (g != w) if exact else not (fin(g) and abs(F(float(g)) - w) <= tol):
             bad('value', f"value of {k!r} is {g!r}, the base statistic of its values since it first appeared "
                          f"(0 when omitted) is {w} ({float(w)!r}); histories {ref.hist}")
-    norm = tr.get_normalized()
+    norm = dict(tr.get_normalized())
     if set(norm.keys()) != set(want.keys()):
         bad('norm-keys', f"normalised keys {list(norm)}")
     for k, v in norm.items():
         if not fin(v):
             bad('norm-nan-inf', f"get_normalized()[{k!r}] = {v!r} (raw values {got})")
+    # reading is not writing: whatever was read in between (the normalised view, the call form, repr), the raw values
+    # reported without an intervening update are the same
+    for how, again in (('get() after get_normalized()', tr.get()), ('tracker() after get_normalized()', tr()),
+                       ('get() after repr()', (repr(tr), tr.get())[1]),
+                       ('get() after a second get_normalized()', (tr.get_normalized(), tr.get())[1])):
+        if set(again.keys()) != set(got.keys()) or any(not same(again[k], got[k]) for k in got):
+            bad('read-changes-values', f"{how} = {dict(again)} but get() had returned {dict(got)} and there was no update "
+                                       f"in between")
+    norm_again = tr.get_normalized()
+    if set(norm_again.keys()) != set(norm.keys()) or any(not same(norm_again[k], norm[k]) for k in norm):
+        bad('read-changes-values', f"get_normalized() = {dict(norm_again)} but had returned {dict(norm)} with no update in between")
     # the normalised view is judged against the tracker's OWN reported raw values (as exact rationals)
     raw = {k: (v if exact else F(float(v))) for k, v in got.items()}
     tot = sum(raw.values())
